@@ -411,13 +411,18 @@ def build():
     p.models["pool.close"] = lambda i, r, a, k: i.ctx.events.append(("pool.close",))
     p.models["pool.terminate"] = lambda i, r, a, k: i.ctx.events.append(("pool.terminate",))
     p.models["ThreadingBackend.configure"] = lambda i, r, a, k: i.ctx.events.append(("configure", k.get("n_jobs")))
-    p.add(Contract(
-        PB, "PoolManagerMixin.abort_everything", props=["C04"],
-        inline={"terminate"},
-        params=dict(self=ObjOf("ThreadingBackend", _pool=Opt(OpaqueOf("pool")), parallel=OpaqueOf("par", n_jobs=INT, _backend_kwargs=PyDict({}))), ensure_ready=OneOf(True, False)),
-        ensures={"pool_gone": "self._pool is None"},
-        ensures_body={"reconfigured_iff_ensure_ready": "n_events('configure') == (1 if ensure_ready else 0)",
-                      "same_n_jobs": "implies(ensure_ready, ev_named('configure')[0][1] is self.parallel.n_jobs)",
-                      "old_pool_terminated": "implies(old(self._pool) is not None, n_events('pool.terminate') == 1)"},
-    ))
+    p.models["MultiprocessingBackend.configure"] = lambda i, r, a, k: i.ctx.events.append(("configure", k.get("n_jobs")))
+    p.models["MultiprocessingBackend.reset_batch_stats"] = lambda i, r, a, k: None
+    # stated for the concrete pool backends and resolved through the class hierarchy on every run: an override appearing in a subclass is
+    # then the code that is verified
+    for bcls in ("ThreadingBackend", "MultiprocessingBackend"):
+        p.add(Contract(
+            PB, bcls + ".abort_everything", props=["C04"],
+            inline={"terminate"},
+            params=dict(self=ObjOf(bcls, _pool=Opt(OpaqueOf("pool")), parallel=OpaqueOf("par", n_jobs=INT, _backend_kwargs=PyDict({}))), ensure_ready=OneOf(True, False)),
+            ensures={"pool_gone_or_replaced": "self._pool is None or self._pool is not old(self._pool)"},
+            ensures_body={"reconfigured_iff_ensure_ready": "n_events('configure') == (1 if ensure_ready else 0)",
+                          "same_n_jobs": "implies(ensure_ready, ev_named('configure')[0][1] is self.parallel.n_jobs)",
+                          "old_pool_terminated": "implies(old(self._pool) is not None, n_events('pool.terminate') == 1)"},
+        ))
     return p
